@@ -157,7 +157,7 @@ def _scaled(expr, inner_text, inner_name):
 
 
 def _derive():
-    out = ['# DERIVED by harness/leaves/C18.py from ' + SRC + ' - do not edit', '']
+    out = ['# DERIVED by harness/leaves/C18.py from the source tree under check - do not edit', '']
 
     def emit(name, params, body_fn):
         try:
